@@ -42,6 +42,11 @@ TREES = [
     ('long-str-elem', ['list', [L(repr('lorem ipsum dolor sit amet ' * 4)), L('2')]]),
     ('long-str-value', ['dict', [[L('1'), L(repr('consectetur adipiscing elit sed ' * 3))], [L('2'), ['list', [L(repr(b'bytes words here ' * 6))]]]]]),
     ('short-strs', ['list', [L("'a'"), ['tuple', [L("b'b'"), L('3')]]]]),
+    # user subclasses of list / tuple / dict (printed as a constructor call around the literal)
+    ('user-list', ['list', [L('0'), ['ulist', [L('1'), ints('list', 2)]]]]),
+    ('user-dict', ['udict', [[L('1'), ['utuple', [L('2'), L('3')]]], [L('4'), ints('list', 5)]]]),
+    # (a tuple placeholder as the sole element of a list would read like the list's own placeholder: avoided)
+    ('singletons', ['list', [['list', [['list', [ints('set', 1)]]]]]]),
 ]
 
 
@@ -85,7 +90,17 @@ def type_name(v):
     return t.__module__ + '.' + t.__qualname__
 
 
+def _is_user_container(v):
+    return isinstance(v, (list, tuple, dict)) and type(v) not in (list, tuple, dict)
+
+
 def is_placeholder(node, v):
+    if _is_user_container(v):
+        # MyList([...]) / MyTuple((...)) / MyDict({...})
+        if _call_name(node) != type_name(v) or len(node.args) != 1 or node.keywords:
+            return False
+        base = list if isinstance(v, list) else tuple if isinstance(v, tuple) else dict
+        return is_placeholder(node.args[0], base())
     if isinstance(v, list):
         return isinstance(node, ast.List) and len(node.elts) == 1 and _is_ellipsis(node.elts[0])
     if isinstance(v, tuple):
@@ -110,16 +125,25 @@ class DepthCase(base.CaseBase):
 
     def run(self, d, w, rw):
         depth = None if self.none else d
-        try:
-            if self.native:
-                text = pfbase.native_pformat(self.value, w, rw, depth=depth)
-                full = pfbase.native_pformat(self.value, w, rw, depth=None)
-            else:
-                text = pfbase.ptext(self.value, w, rw, depth=depth, traced_printers=True)
-                full = pfbase.ptext(self.value, w, rw, depth=None, traced_printers=True)
-        except Exception as e:
-            exc = type(e).__name__
-            return self.fail('C11:pformat-raises-' + exc, lambda: '%s: %s' % (exc, e))
+        import warnings
+        with warnings.catch_warnings(record=True) as wlist:
+            warnings.simplefilter('always')
+            try:
+                if self.native:
+                    text = pfbase.native_pformat(self.value, w, rw, depth=depth)
+                    full = pfbase.native_pformat(self.value, w, rw, depth=None)
+                else:
+                    text = pfbase.ptext(self.value, w, rw, depth=depth, traced_printers=True)
+                    full = pfbase.ptext(self.value, w, rw, depth=None, traced_printers=True)
+            except Exception as e:
+                exc = type(e).__name__
+                return self.fail('C11:pformat-raises-' + exc, lambda: '%s: %s' % (exc, e))
+        with NoTracing():
+            failed = [str(x.message)[:300] for x in wlist if 'Falling back' in str(x.message)]
+        if failed:
+            return self.fail('C11:printer-failed-repr-fallback',
+                             lambda: 'value=%s depth=%r w=%r rw=%r\noutput:\n%s\nwarnings=%r' % (
+                                 trees.show(self.spec), depth, w, rw, text, failed))
         describe = lambda: 'value=%s depth=%r w=%r rw=%r\noutput:\n%s' % (
             trees.show(self.spec), depth, w, rw, text)
         with NoTracing():
@@ -172,6 +196,12 @@ class DepthCase(base.CaseBase):
             return [] if isinstance(node, ast.Constant) and node.value == v and type(node.value) is int else None
         if isinstance(v, (str, bytes)):
             return [] if isinstance(node, ast.Constant) and node.value == v else None
+        if _is_user_container(v):
+            # the constructor call around the literal of the base type (same nesting level)
+            if _call_name(node) != type_name(v) or len(node.args) != 1 or node.keywords:
+                return None
+            base = list if isinstance(v, list) else tuple if isinstance(v, tuple) else dict
+            return self.children(node.args[0], base(v))
         if isinstance(v, list):
             if not isinstance(node, ast.List) or len(node.elts) != len(v):
                 return None
